@@ -183,11 +183,12 @@ impl Recv {
                 "lower than high water mark",
             ));
         }
-        self.credit_consumed_by(final_offset.into(), received, max_data)?;
-
         if matches!(self.state, RecvState::ResetRecvd { .. }) {
+            // A retransmitted RESET_STREAM consumes nothing: the bytes up to the final size were
+            // accounted for by the first one
             return Ok(false);
         }
+        self.credit_consumed_by(final_offset.into(), received, max_data)?;
         self.state = RecvState::ResetRecvd {
             size: final_offset.into(),
             error_code,
